@@ -351,7 +351,8 @@ def row_residue(node, f, K):
                 pass
         if k == "var":
             d = decls.get(n.get("id"))
-            if d is not None and d.get("init") is not None and n.get("id") not in assigned and (d.get("ty") or {}).get("c") == "int" and (d.get("ty") or {}).get("const"):
+            # a local integer that is initialised and never assigned again (declared const or not) is its initialiser
+            if d is not None and d.get("init") is not None and n.get("id") not in assigned and (d.get("ty") or {}).get("c") == "int" and not (d.get("ty") or {}).get("ref"):
                 return ev(d["init"], depth + 1)
             return sp.Symbol("v%s_%s" % (n.get("id"), n.get("name")), integer=True)
         if k == "mem":
